@@ -142,6 +142,77 @@ def conjuncts(c):
     return [c]
 
 
+def rank_of(v):
+    """number of axes of an array value when it is allocated with a shape of known length (possibly followed by stores)"""
+    for _ in range(8):
+        if not isinstance(v, T.Poly):
+            return None
+        a = v.single_atom()
+        if a is None or a[0] != "app":
+            return None
+        if a[1] == "setitem" and a[2]:
+            v = T.dec(a[2][0])
+            continue
+        if a[1] in ("call:numpy.zeros", "call:numpy.ones", "call:numpy.empty") and a[2]:
+            shp = T.dec(a[2][0])
+            if is_tuple(shp):
+                return len(shp)
+            n = seq_len(shp) if isinstance(shp, T.Poly) else None
+            fr = n.as_fraction() if isinstance(n, T.Poly) else None
+            return int(fr) if fr is not None else None
+        return None
+    return None
+
+
+def expand_ellipsis(idx, base):
+    """x[..., i, j] on an array of known rank is x[:, i, j] with the full slices written out"""
+    if not is_tuple(idx):
+        return idx
+    marks = [i for i, x in enumerate(idx) if isinstance(x, T.Poly) and x in (T.sym("...", real=True), T.sym("Ellipsis", real=True), T.sym("Ellipsis"))]
+    if len(marks) != 1:
+        return idx
+    r = rank_of(base)
+    if r is None or r < len(idx) - 1:
+        return idx
+    full = T.app("slice", NONE, NONE, NONE)
+    i = marks[0]
+    return tuple(idx[:i]) + (full,) * (r - (len(idx) - 1)) + tuple(idx[i + 1:])
+
+
+def absorb_disjunctions(conds):
+    """a path condition is a conjunction: a conjunct or(a, b) says nothing new once a (or b) is itself a conjunct, and reduces to b once
+    not(a) is one -- so `if a or b: ... if a: ...` reads like `if a: ...`"""
+    conds = list(conds)
+    for _ in range(4):
+        changed = False
+        out = []
+        for c in conds:
+            at = c.single_atom() if isinstance(c, T.Poly) else None
+            if at is not None and at[0] == "app" and at[1] == "or":
+                ds = [T.dec(x) for x in at[2]]
+                others = [k for k in conds if k is not c]
+                if any(d == k for d in ds for k in others):
+                    changed = True
+                    continue          # absorbed
+                keep = [d for d in ds if not any(negate(d) == k for k in others)]
+                if not keep:
+                    return None
+                if len(keep) < len(ds) and keep:
+                    changed = True
+                    nc = keep[0] if len(keep) == 1 else T.app("or", *keep)
+                    for x in conjuncts(nc):
+                        if not any(x == k for k in out) and not any(x == k for k in others):
+                            out.append(x)
+                    continue
+            out.append(c)
+        conds = out
+        if not changed:
+            break
+    return conds
+
+
+UFUNCS_WITH_OUT = {"multiply", "add", "subtract", "divide", "true_divide", "conj", "conjugate", "negative", "abs", "absolute", "sqrt", "exp", "square",
+                   "cos", "sin", "real", "imag", "clip", "maximum", "minimum"}
 REAL_NUMPY = {"ones", "zeros", "size", "arange", "linspace", "shape", "mgrid", "isinf", "isnan", "argmax", "argmin", "histogram", "floor", "ceil"}
 SEQ_APPS = {"seq", "comp", "repeat", "concat", "list", "shape", "range", "zip"}
 # items of tuple-returning repo functions that are themselves sequences: {fn-app name: {index, ...}} (registered by rule modules
@@ -349,6 +420,29 @@ class VN:
         if e.attr in ("shape", "ndim", "size", "dtype"):
             if e.attr == "shape" and is_tuple(base):
                 return T.app("shape", base, real=True)
+            if e.attr in ("shape", "dtype") and isinstance(base, T.Poly):
+                # storing elements changes neither shape nor dtype; a freshly allocated array has the shape / dtype it was allocated with
+                b_ = base
+                for _ in range(6):
+                    ba_ = b_.single_atom()
+                    if ba_ is not None and ba_[0] == "app" and ba_[1] == "setitem" and ba_[2] and ba_[2][0][0] == "P":
+                        b_ = T.dec(ba_[2][0])
+                        continue
+                    break
+                ba_ = b_.single_atom()
+                if ba_ is not None and ba_[0] == "app" and ba_[1] in ("call:numpy.zeros", "call:numpy.ones", "call:numpy.empty") and ba_[2]:
+                    if e.attr == "shape":
+                        shp = T.dec(ba_[2][0])
+                        if is_tuple(shp) or (isinstance(shp, T.Poly) and is_seq(shp)):
+                            return shp
+                    else:
+                        for x_ in ba_[2][1:]:
+                            kv = T.dec(x_)
+                            ka = kv.single_atom() if isinstance(kv, T.Poly) else None
+                            if ka is not None and ka[0] == "app" and ka[1] == "kw:dtype":
+                                return T.dec(ka[2][0])
+                if b_ is not base:
+                    return T.app("attr:" + e.attr, b_, real=True)
             return T.app("attr:" + e.attr, base, real=True)
         return T.app("attr:" + e.attr, base)
 
@@ -633,6 +727,20 @@ class VN:
             ba = base.single_atom()
             if ba is not None and ba[0] == "app" and ba[1] == "getitem" and T.dec(ba[2][1]) == REVERSE:
                 return T.dec(ba[2][0])  # x[::-1][::-1] = x
+            # (k * linspace(a, b, num=n))[::-1] = k * linspace(b, a, num=n) for scalar k: the mirrored ramp
+            if len(base.t) == 1:
+                (m_, c_), = base.t.items()
+                lin = [(a_, e_) for a_, e_ in m_ if a_[0] == "app" and a_[1] == "call:numpy.linspace" and e_ == 1 and len(a_[2]) >= 2]
+                rest = [(a_, e_) for a_, e_ in m_ if not (a_[0] == "app" and a_[1] == "call:numpy.linspace")]
+                if len(lin) == 1 and all(self.is_scalar_atom(a_) for a_, _ in rest):
+                    la = lin[0][0]
+                    largs = [T.dec(x_) for x_ in la[2]]
+                    if all(isinstance(x_, T.Poly) for x_ in largs) and not any(T.show(x_, 30).startswith("kw:endpoint") for x_ in largs):
+                        mirrored = T.app("call:numpy.linspace", largs[1], largs[0], *largs[2:], real=True)
+                        out_ = T.Poly({frozenset(): c_})
+                        for a_, e_ in rest:
+                            out_ = T.mul(out_, T.Poly({frozenset({(a_, e_)}): T.ONE}))
+                        return T.mul(out_, mirrored)
         return T.app("getitem", self._as_term(base), idx)
 
     def _int(self, node, st, default):
@@ -687,23 +795,77 @@ class VN:
         elt = self._as_term(self.ev(e.elt, env2))
         if k == 1 and len(iters) == 1 and elt == T.sym("@0", real=True):
             return iters[0]  # [x for x in it] has the elements of it
-        # fusion: comp(f(@0), comp(g(@0), it)) = comp(f(g(@0)), it)   (single target, no filters)
-        if k == 1 and len(iters) == 1 and isinstance(elt, T.Poly):
-            ia = iters[0].single_atom() if isinstance(iters[0], T.Poly) else None
-            if ia is not None and ia[0] == "app" and ia[1] == "comp" and len(ia[2]) == 2:
-                inner_elt = T.dec(ia[2][0])
-                inner_it = T.dec(ia[2][1])
-                iat = inner_it.single_atom() if isinstance(inner_it, T.Poly) else None
-                if isinstance(inner_elt, T.Poly) and not (iat is not None and iat[0] == "app" and iat[1] in ("zip", "if")):
-                    try:
-                        fused = T.subst(elt, {"@0": inner_elt})
-                        fused = self._renorm_mod(fused)
-                        if fused == T.sym("@0", real=True):
-                            return inner_it
-                        return T.app(kind, fused, inner_it)
-                    except TypeError:
-                        pass
+        # normal form of a filter-free comprehension over parallel sequences: inner comprehensions are fused into the body (also through
+        # zip), a sequence iterated twice is iterated once, and the sequences are listed in a canonical order
+        if len(iters) == 1 and isinstance(elt, T.Poly):
+            r = self._normalise_comp(kind, elt, iters[0], k)
+            if r is not None:
+                return r
         return T.app(kind, elt, *iters)
+
+    def _normalise_comp(self, kind, elt, it, k):
+        def parts_of(x):
+            xa = x.single_atom() if isinstance(x, T.Poly) else None
+            if xa is not None and xa[0] == "app" and xa[1] == "zip":
+                return [T.dec(y) for y in xa[2]]
+            return None
+        parts = parts_of(it)
+        if parts is None:
+            parts = [it]
+        if len(parts) != k or not all(isinstance(p_, T.Poly) for p_ in parts):
+            return None
+        try:
+            for _ in range(8):
+                hit = None
+                for i, pt in enumerate(parts):
+                    pa = pt.single_atom()
+                    if pa is not None and pa[0] == "app" and pa[1] == "comp" and len(pa[2]) == 2:
+                        inner_elt, inner_it = T.dec(pa[2][0]), T.dec(pa[2][1])
+                        ia = inner_it.single_atom() if isinstance(inner_it, T.Poly) else None
+                        if not isinstance(inner_elt, T.Poly) or (ia is not None and ia[0] == "app" and ia[1] == "if"):
+                            continue
+                        zs = parts_of(inner_it) or [inner_it]
+                        if not all(isinstance(z_, T.Poly) for z_ in zs):
+                            continue
+                        hit = (i, inner_elt, zs)
+                        break
+                if hit is None:
+                    break
+                i, inner_elt, zs = hit
+                n = len(zs)
+                # shift the outer variables above i, then substitute @i by the inner body over @i..@i+n-1 (two-step renaming via fresh names)
+                ren = {"@%d" % j: T.sym("@tmp%d" % (j + n - 1 if j > i else j), real=True) for j in range(len(parts)) if j != i}
+                inner = T.subst(inner_elt, {"@%d" % j: T.sym("@tmp%d" % (i + j), real=True) for j in range(n)})
+                ren["@%d" % i] = inner
+                elt = T.subst(elt, ren)
+                parts = parts[:i] + zs + parts[i + 1:]
+                elt = T.subst(elt, {"@tmp%d" % j: T.sym("@%d" % j, real=True) for j in range(len(parts))})
+            # a sequence listed twice
+            j = 0
+            while j < len(parts):
+                dup = [m for m in range(j + 1, len(parts)) if parts[m] == parts[j]]
+                if dup:
+                    m = dup[0]
+                    ren = {"@%d" % m: T.sym("@%d" % j, real=True)}
+                    ren.update({"@%d" % q: T.sym("@%d" % (q - 1), real=True) for q in range(m + 1, len(parts))})
+                    elt = T.subst(elt, ren)
+                    parts = parts[:m] + parts[m + 1:]
+                    continue
+                j += 1
+            # canonical order
+            order = sorted(range(len(parts)), key=lambda q: repr(parts[q].key()))
+            if order != list(range(len(parts))):
+                elt = T.subst(elt, {"@%d" % q: T.sym("@tmp%d" % order.index(q), real=True) for q in range(len(parts))})
+                elt = T.subst(elt, {"@tmp%d" % q: T.sym("@%d" % q, real=True) for q in range(len(parts))})
+                parts = [parts[q] for q in order]
+            elt = self._renorm_mod(elt)
+        except TypeError:
+            return None
+        if len(parts) == 1:
+            if elt == T.sym("@0", real=True):
+                return parts[0]
+            return T.app(kind, elt, parts[0])
+        return T.app(kind, elt, T.app("zip", *parts))
 
     def _renorm_mod(self, t):
         """apply (x % n) % n = x % n inside a term (after substitution)"""
@@ -744,6 +906,14 @@ class VN:
             if r is not None:
                 return r
         f = e.func
+        if isinstance(f, ast.Call) and isinstance(f.func, ast.Name) and f.func.id == "getattr" and len(f.args) == 2 and not f.keywords:
+            # getattr(mod, "name")(...) with a name that is a known string constant is mod.name(...)
+            nv = self.ev(f.args[1], st)
+            na = nv.single_atom() if isinstance(nv, T.Poly) else None
+            if na is not None and na[0] == "sym" and len(na[1]) > 2 and na[1][0] == na[1][-1] == "'" and na[1][1:-1].isidentifier():
+                e2 = ast.copy_location(ast.Call(func=ast.copy_location(ast.Attribute(value=f.args[0], attr=na[1][1:-1], ctx=ast.Load()), f),
+                                                args=e.args, keywords=e.keywords), e)
+                return self.ev_Call(e2, st)
         # closure / lambda held in the environment
         k = self.key_of(f)
         if k is not None and isinstance(st.env.get(k), Closure):
@@ -819,6 +989,9 @@ class VN:
                     st.env.update(snap_env)
                     st.events[:] = snap_ev
             bound = self.bind_values(fn, e, st, argcache)
+            if fn.qual == "sigpy.util.resize" and isinstance(bound.get("input"), T.Poly) and bound.get("ishift") == NONE and bound.get("oshift") == NONE \
+                    and self._as_term(bound.get("oshape")) == T.app("attr:shape", bound["input"], real=True):
+                return bound["input"]     # resize(x, x.shape) is x (the equal-shape early return of resize, which C05/F5 and C09/X1 certify)
             return T.app("fn:" + fn.qual, *[T.app("kw:" + p, self._as_term(bound[p])) for p in sorted(bound)])
         if tgt is not None and tgt[0] == "class":
             bound = self.bind_values(tgt[1], e, st, argcache)
@@ -828,6 +1001,17 @@ class VN:
         if tgt is not None and tgt[0] == "ext":
             name = tgt[1]
         short = (name or k or unparse(f)).split(".")[-1]
+        if "out" in kw and (name or "").startswith("numpy.") and short in UFUNCS_WITH_OUT:
+            # np.multiply(a, b, out=c) is c[...] = a * b (and returns c): evaluate the operation without `out`, then store
+            out_node = [kk.value for kk in e.keywords if kk.arg == "out"][0]
+            ko = self.key_of(out_node)
+            kw2 = {a_: b_ for a_, b_ in kw.items() if a_ != "out"}
+            r = self.numpy_call(short, name, e, args, kw2, st)
+            if r is not None and ko is not None and kw["out"] != NONE:
+                st.update_in_place(ko, r)
+                return r
+            if kw["out"] == NONE:
+                kw = kw2
         r = self.numpy_call(short, name or k or "", e, args, kw, st)
         if r is not None:
             return r
@@ -1062,7 +1246,12 @@ class VN:
         if a[0] == "sym":
             return a[1] in self.scalars
         if a[0] == "app":
-            return a[1] in ("sum", "norm", "vdot", "prod", "len", "size", "amin", "amax")
+            if a[1] in ("sum", "norm", "vdot", "prod", "len", "size", "amin", "amax", "max_of", "min_of"):
+                return True
+            if a[1] in ("int", "ceil", "floor", "float") and len(a[2]) == 1 and a[2][0][0] == "P":
+                inner = T.from_key(a[2][0][1])     # rounding of a scalar expression is a scalar
+                return all(self.is_scalar_atom(x) for m in inner.t for x, _ in m)
+            return False
         if a[0] == "cmp":
             return all(self.is_scalar_atom(x) for m, _ in a[1] for x, _ in m)
         return False
@@ -1103,6 +1292,9 @@ class VN:
             return a0
         if short in ("multiply",) and len(args) == 2 and all(isinstance(x, P) for x in args):
             return T.mul(args[0], args[1])
+        if short in ("add", "subtract", "divide", "true_divide") and len(args) == 2 and all(isinstance(x, P) for x in args) and not kw \
+                and full.startswith("numpy"):
+            return self.binop({"add": ast.Add(), "subtract": ast.Sub(), "divide": ast.Div(), "true_divide": ast.Div()}[short], args[0], args[1], e)
         if short == "matmul" and len(args) == 2 and all(isinstance(x, P) for x in args) and not kw:
             return self.binop(ast.MatMult(), args[0], args[1], e)   # np.matmul(a, b) is a @ b
         if short == "negative" and isP:
@@ -1174,10 +1366,22 @@ class VN:
             return tuple((T.const(i), x) for i, x in enumerate(a0))
         if short == "reversed" and is_tuple(a0):
             return tuple(reversed(a0))
+        if short == "accumulate" and full.startswith("itertools") and is_tuple(a0) and len(args) == 1 and not kw and all(isinstance(x, T.Poly) for x in a0):
+            acc, run_ = [], None
+            for x in a0:          # running totals of a sequence of known length
+                run_ = x if run_ is None else T.add(run_, x)
+                acc.append(run_)
+            return tuple(acc)
         if short == "sorted" and is_tuple(a0) and len(args) == 1 and not kw and all(isinstance(x, T.Poly) and x.as_fraction() is not None for x in a0):
             return tuple(sorted(a0, key=lambda x: x.as_fraction()))   # a tuple of known numbers
         if short == "reversed" and isP and not kw and len(args) == 1:
             return T.app("getitem", a0, REVERSE)  # same elements as seq[::-1]
+        if short == "all" and isP and len(args) == 1 and not kw and not full.startswith("numpy"):
+            # all(c for ..) is not any(not c for ..): one quantifier only, so `not all(x >= y ..)` and `any(x < y ..)` are one condition
+            ca = a0.single_atom()
+            if ca is not None and ca[0] == "app" and ca[1] == "comp" and len(ca[2]) == 2 and isinstance(T.dec(ca[2][0]), P):
+                body = negate(T.dec(ca[2][0]))
+                return T.app("not", T.app("call:any", T.app("comp", body, T.dec(ca[2][1]))))
         if short in ("any", "all") and is_tuple(a0) and len(args) == 1 and not kw and all(isinstance(x, T.Poly) for x in a0) \
                 and not full.startswith("numpy"):
             is_and = short == "all"
@@ -1224,6 +1428,12 @@ class VN:
         outs = self.block(list(stmts), [st])
         if self.depth == 0:
             outs = self.split_ifexp(outs)
+            kept = []
+            for o in outs:
+                o.conds = absorb_disjunctions(o.conds)
+                if o.conds is not None:
+                    kept.append(o)      # (None: a disjunction all of whose members are refuted on this path -- the path cannot be taken)
+            outs = kept
         return outs
 
     def split_ifexp(self, states, cap=256):
@@ -1314,7 +1524,7 @@ class VN:
                     lst[i] = val
                     st.env[k] = tuple(lst)
                     return
-            idx = self._as_term(self.ev(tgt.slice, st))
+            idx = self._as_term(expand_ellipsis(self.ev(tgt.slice, st), old))
             st.update_in_place(k, T.app("setitem", self._as_term(old), idx, self._as_term(val)))
             st.events.append(("setitem", k, idx, val, node))
             return
@@ -1698,7 +1908,7 @@ def append_loop(vn, s, st):
         if len(targets) == 1 and elt == T.sym("@0", real=True):
             comp = itt
         else:
-            comp = T.app("comp", elt, itt)
+            comp = (vn._normalise_comp("comp", elt, itt, len(targets)) if isinstance(elt, T.Poly) and isinstance(itt, T.Poly) else None) or T.app("comp", elt, itt)
         old = st.env[k]
         st.env[k] = comp if (is_tuple(old) and len(old) == 0) else concat(old, comp)
     # temporaries assigned in the body are not defined in terms of a generic iteration afterwards: forget them
